@@ -1,0 +1,166 @@
+//! Verification hook H8: lets an out-of-tree model-checking harness
+//! instantiate the generic extension-field code ([`QuadExtField`],
+//! [`CubicExtField`], `sqrt_algo9`, ...) at a base field of its own.
+//!
+//! Rust's orphan rules only allow the tower traits and the operator traits to
+//! be implemented for `QuadExtField<F>` / `CubicExtField<F>` inside this
+//! crate, which is why the in-tree towers are instantiated with the
+//! `impl_binops_*` / `impl_sum_prod` macros next to their type aliases. This
+//! module provides the same forwarding glue once, generically, for every base
+//! field that opts in through a marker trait. It contains no arithmetic of
+//! its own: every operator forwards to the generic inherent method the macros
+//! forward to. Add-only, compiled only with the `verif-hooks` feature.
+
+use core::{
+    borrow::Borrow,
+    iter::{Product, Sum},
+    ops::{Add, AddAssign, Mul, MulAssign, Neg, Sub, SubAssign},
+};
+
+use super::{
+    cubic::{CubicExtField, CubicExtFieldArith},
+    quadratic::{QuadExtField, QuadExtFieldArith, SQRT},
+    ExtField,
+};
+
+/// Base field of a harness-supplied quadratic extension `F[u] / (u^2 -
+/// F::NON_RESIDUE)` whose square root is Algorithm 9 (q = 3 mod 4,
+/// `NON_RESIDUE = -1`).
+pub trait VerifQuadBase: ExtField {
+    /// (q - 3) / 4, little-endian limbs.
+    const Q_MINUS_3_OVER_4: &'static [u64];
+    /// (q - 1) / 2, little-endian limbs.
+    const Q_MINUS_1_OVER_2: &'static [u64];
+}
+
+/// Base field of a harness-supplied cubic extension `F[v] / (v^3 -
+/// F::NON_RESIDUE)`.
+pub trait VerifCubicBase: ExtField {}
+
+impl<F: VerifQuadBase> QuadExtFieldArith for QuadExtField<F> {
+    type Base = F;
+    const SQRT: SQRT<F> = SQRT::Algorithm9 {
+        q_minus_3_over_4: F::Q_MINUS_3_OVER_4,
+        q_minus_1_over_2: F::Q_MINUS_1_OVER_2,
+    };
+}
+
+impl<F: VerifQuadBase> ExtField for QuadExtField<F> {
+    // Only used by a further tower level; none is instantiated on top.
+    const NON_RESIDUE: Self = QuadExtField::new(F::ZERO, F::ONE);
+
+    fn frobenius_map(&mut self, power: usize) {
+        if power % 2 != 0 {
+            self.conjugate();
+        }
+    }
+}
+
+impl<F: VerifCubicBase> CubicExtFieldArith for CubicExtField<F> {
+    type Base = F;
+}
+
+impl<F: VerifCubicBase> ExtField for CubicExtField<F> {
+    // Only used by a further tower level; none is instantiated on top.
+    const NON_RESIDUE: Self = CubicExtField::new(F::ZERO, F::ONE, F::ZERO);
+
+    fn frobenius_map(&mut self, _power: usize) {
+        unimplemented!()
+    }
+}
+
+macro_rules! verif_forward_ops {
+    ($ext:ident, $marker:ident) => {
+        impl<F: $marker> Neg for $ext<F> {
+            type Output = Self;
+            fn neg(self) -> Self {
+                $ext::neg(&self)
+            }
+        }
+        impl<'a, F: $marker> Neg for &'a $ext<F> {
+            type Output = $ext<F>;
+            fn neg(self) -> $ext<F> {
+                $ext::neg(self)
+            }
+        }
+        impl<F: $marker> Add for $ext<F> {
+            type Output = Self;
+            fn add(self, rhs: Self) -> Self {
+                $ext::add(&self, &rhs)
+            }
+        }
+        impl<'a, F: $marker> Add<&'a $ext<F>> for $ext<F> {
+            type Output = Self;
+            fn add(self, rhs: &'a Self) -> Self {
+                $ext::add(&self, rhs)
+            }
+        }
+        impl<F: $marker> Sub for $ext<F> {
+            type Output = Self;
+            fn sub(self, rhs: Self) -> Self {
+                $ext::sub(&self, &rhs)
+            }
+        }
+        impl<'a, F: $marker> Sub<&'a $ext<F>> for $ext<F> {
+            type Output = Self;
+            fn sub(self, rhs: &'a Self) -> Self {
+                $ext::sub(&self, rhs)
+            }
+        }
+        impl<F: $marker> Mul for $ext<F> {
+            type Output = Self;
+            fn mul(self, rhs: Self) -> Self {
+                $ext::mul(&self, &rhs)
+            }
+        }
+        impl<'a, F: $marker> Mul<&'a $ext<F>> for $ext<F> {
+            type Output = Self;
+            fn mul(self, rhs: &'a Self) -> Self {
+                $ext::mul(&self, rhs)
+            }
+        }
+        impl<F: $marker> AddAssign for $ext<F> {
+            fn add_assign(&mut self, rhs: Self) {
+                *self = $ext::add(self, &rhs);
+            }
+        }
+        impl<'a, F: $marker> AddAssign<&'a $ext<F>> for $ext<F> {
+            fn add_assign(&mut self, rhs: &'a Self) {
+                *self = $ext::add(self, rhs);
+            }
+        }
+        impl<F: $marker> SubAssign for $ext<F> {
+            fn sub_assign(&mut self, rhs: Self) {
+                *self = $ext::sub(self, &rhs);
+            }
+        }
+        impl<'a, F: $marker> SubAssign<&'a $ext<F>> for $ext<F> {
+            fn sub_assign(&mut self, rhs: &'a Self) {
+                *self = $ext::sub(self, rhs);
+            }
+        }
+        impl<F: $marker> MulAssign for $ext<F> {
+            fn mul_assign(&mut self, rhs: Self) {
+                *self = $ext::mul(self, &rhs);
+            }
+        }
+        impl<'a, F: $marker> MulAssign<&'a $ext<F>> for $ext<F> {
+            fn mul_assign(&mut self, rhs: &'a Self) {
+                *self = $ext::mul(self, rhs);
+            }
+        }
+        impl<F: $marker, T: Borrow<$ext<F>>> Sum<T> for $ext<F> {
+            fn sum<I: Iterator<Item = T>>(iter: I) -> Self {
+                iter.fold(Self::zero(), |acc, item| $ext::add(&acc, item.borrow()))
+            }
+        }
+        impl<F: $marker, T: Borrow<$ext<F>>> Product<T> for $ext<F> {
+            fn product<I: Iterator<Item = T>>(iter: I) -> Self {
+                iter.fold(Self::one(), |acc, item| $ext::mul(&acc, item.borrow()))
+            }
+        }
+    };
+}
+
+verif_forward_ops!(QuadExtField, VerifQuadBase);
+verif_forward_ops!(CubicExtField, VerifCubicBase);
